@@ -76,6 +76,10 @@ CASES = [
     ("luau: the base of an optional type is formatted without the optional mark", "src/formatters/luau.rs", "                context.mark_within_optional().mark_contains_union(),", "                context.mark_contains_union(),", "luau", "all", "C02.luau_type_members_keep_parentheses"),
     ("luau: union members formatted for the intersection mark", "src/formatters/luau.rs", "                                left,\n                                context.mark_contains_union(),", "                                left,\n                                context.mark_contains_intersect(),", "luau", "all", "C02.luau_type_loop"),
     ("luau: the type of a variadic is formatted without the variadic mark", "src/formatters/luau.rs", "                context.mark_within_variadic(),\n                shape + 3,", "                context,\n                shape + 3,", "luau", "all", "C02.luau_type_members_keep_parentheses"),
+    ("range: an out-of-range binary expression gets its operands swapped", "src/formatters/stmt.rs", "                lhs: Box::new(format_expression_block(ctx, lhs, shape)),\n                binop: binop.to_owned(),\n                rhs: Box::new(format_expression_block(ctx, rhs, shape)),", "                lhs: Box::new(format_expression_block(ctx, rhs, shape)),\n                binop: binop.to_owned(),\n                rhs: Box::new(format_expression_block(ctx, lhs, shape)),", "range", "default", "C09.expression_blocks_only"),
+    ("range: an out-of-range `if` loses its else block", "src/formatters/stmt.rs", "                        .with_else_if(else_if)\n                        .with_else(else_block),", "                        .with_else_if(else_if)\n                        .with_else(None),", "range", "default", "C09.stmt_blocks_only"),
+    ("range (blocks are unconstrained by this contract): an out-of-range local function is returned without visiting its block", "src/formatters/stmt.rs", "                let body = local_function.body().to_owned().with_block(block);\n                Stmt::LocalFunction(local_function.to_owned().with_body(body))", "                Stmt::LocalFunction(local_function.to_owned())", "range", "default", "ok"),
+    ("range (blocks are unconstrained by this contract): an out-of-range `while` is returned without visiting its block", "src/formatters/stmt.rs", "                Stmt::While(while_block.to_owned().with_block(block))", "                Stmt::While(while_block.to_owned())", "range", "default", "ok"),
     # a predicate moved into a new helper next to the function: the helper is inlined (gen.InlineHelper) and verified as part of the caller
     ("helper: the sugar decision moved into a helper that forgets the Input exception", FU, [FA_DOC, FA_STR, FA_TAB], [HELPER_BAD + FA_DOC, FA_STR_H, FA_TAB_H], "args", "default", "C11.input_keeps_form"),
     ("harmless: the sugar decision moved into a helper (with a binding and an early return)", FU, [FA_DOC, FA_STR, FA_TAB], [HELPER_OK + FA_DOC, FA_STR_H, FA_TAB_H], "args", "default", "ok"),
